@@ -111,6 +111,16 @@ func c02Compose(w *fw.Worker, i int, r *fw.Rand) {
 	refSet := false
 	for k, l := range layers {
 		vals[k] = materializeShared(l, ptrType)
+		switch r.Intn(3) {
+		case 0:
+			// handed over by value: a non-addressable struct (its maps, slices and pointers are still the source's)
+			vals[k] = reflect.ValueOf(vals[k].Interface())
+			w.Count("inputs_handed_over_non_addressable", 1)
+		case 1:
+			if vals[k].CanAddr() {
+				vals[k] = vals[k].Addr()
+			}
+		}
 		for lr := range l.Vals {
 			if lr.Leaf().Leaf.Caps&gen.CapRef != 0 {
 				refSet = true
